@@ -292,6 +292,12 @@ def main(tier):
             raise common.Inconclusive('L-beta never observed with only part of its members excited')
         if min(d['zero_share_placeholder_jump'] for d in st['fail_classes'].values()) < 3:
             raise common.Inconclusive('placeholder jump ratio (share exactly 0) not observed for every shell')
+    # functions of their arguments alone: a thinned grid re-run in other call orders and without an error slot
+    _zz = np.arange(1, 121, 1)
+    _E = np.array([0.5, 1.02355, 3.0, 8.0, 9.2, 13.5, 15.5, 21.0, 30.0, 95.0])
+    _Z3, _S3, _E3 = [x.ravel() for x in np.meshgrid(_zz, np.arange(0, 4), _E, indexing='ij')]
+    _Z4, _L4, _E4 = [x.ravel() for x in np.meshgrid(_zz[::3], np.array([0, 1, 2, 3, -3, -29, -44, -63, -68, -86, -90, -113]), _E, indexing='ij')]
+    ncalls += execlib.independence(ck, 'c09', 'shipped', [('CS_FluorShell', _Z3, _S3, _E3), ('CSb_FluorShell', _Z3, _S3, _E3), ('CS_FluorLine', _Z4, _L4, _E4), ('CSb_FluorLine', _Z4, _L4, _E4)])
     cov = dict(evaluations=int(ncalls), distinct_nontrivial=len(cells),
                rule='(shell, set of K/L1/L2/L3 edges below E, Z) cells in which CS_FluorShell succeeded and was compared with the '
                     'reference at %g relative; energies: both sides (1+-1e-9%s) of and exactly on every K/L edge, midpoints and a seeded '
